@@ -862,6 +862,14 @@ static mi_segment_t* mi_segment_os_alloc( size_t required, size_t page_alignment
   if (memid.initially_committed) {
     mi_commit_mask_create_full(&commit_mask);
   }
+  else if (required > 0) {
+    // a huge segment must be fully committed up front (its pages are never committed on demand)
+    if (!_mi_os_commit(segment, segment_size, NULL)) {
+      _mi_arena_free(segment,segment_size,0,memid);
+      return NULL;
+    }
+    mi_commit_mask_create_full(&commit_mask);
+  }
   else {
     // at least commit the info slices
     const size_t commit_needed = _mi_divide_up((*pinfo_slices)*MI_SEGMENT_SLICE_SIZE, MI_COMMIT_SIZE);
